@@ -1071,7 +1071,32 @@ func (ev *Evaluator) callFn(fn *ssa.Function, args []Val, free []Val, st *State,
 			snap = append(snap, a)
 		}
 	}
-	return ev.opaque(name, snap, fn.Signature.Results(), st, pos)
+	res := ev.opaque(name, snap, fn.Signature.Results(), st, pos)
+	// out-parameters of library functions: the pointee becomes unknown
+	if idxs, ok := outParams[name]; ok {
+		for _, i := range idxs {
+			if i >= len(args) {
+				continue
+			}
+			a := args[i]
+			if ifc, ok := a.(*Iface); ok {
+				a = ifc.Dyn
+			}
+			if p, ok := a.(*Ptr); ok && p.Obj != nil {
+				nmuGlobal++
+				old := getPath(st.mem[p.Obj], p.Path)
+				nv := symLike(fmt.Sprintf("in%d:%s", nmuGlobal, p.Obj.name), old)
+				st.mem[p.Obj] = setPath(st.mem[p.Obj], p.Path, nv)
+			}
+		}
+	}
+	return res
+}
+
+// outParams lists the standard-library functions that write through a pointer
+// argument (index into the argument list).
+var outParams = map[string][]int{
+	"encoding/binary.Read": {2},
 }
 
 func (ev *Evaluator) builtin(name string, args []Val, c *ssa.CallCommon, st *State, site ssa.Value) Val {
